@@ -43,6 +43,9 @@ def strategy(tp):
         "body": st.sampled_from(["none", "length", "chunked"]),
         "body_len": st.sampled_from([0, 1, 10, 5000]),
         "mut": st.lists(mutation, min_size=0, max_size=4),
+        # structure-aware length inflation of one component to a boundary-dense size
+        "stretch": st.one_of(st.none(), st.none(), st.tuples(st.sampled_from(["host", "path", "query", "header-value", "header-name", "method", "userinfo"]),
+                                                             st.sampled_from([255, 256, 1023, 1024, 1025, 4095, 4096, 8191, 8192, 8193, 12000, 16384, 20000])).map(list)),
     })
     resp = st.fixed_dictionaries({
         "status": st.sampled_from([200, 200, 200, 100, 101, 204, 206, 301, 304, 401, 407, 404, 416, 500, 999, 99, 600]),
@@ -95,6 +98,24 @@ def build_request(env, path, rq):
     hostport = "127.0.0.1:%d" % env.origin.port
     m = rq["method"]
     form = rq["form"]
+    extra_headers = []
+    stretch = rq.get("stretch")
+    if stretch:
+        comp, n = stretch
+        if comp == "host":
+            hostport = "h" * n + ":%d" % env.origin.port
+        elif comp == "userinfo":
+            hostport = "u" * n + "@" + hostport
+        elif comp == "path":
+            path = path + "/" + "p" * n
+        elif comp == "query":
+            path = path + "?q=" + "q" * n
+        elif comp == "header-value":
+            extra_headers.append("X-Long: " + "v" * n)
+        elif comp == "header-name":
+            extra_headers.append("X-" + "n" * n + ": v")
+        elif comp == "method":
+            m = "M" * n
     if m == "CONNECT" or form == "authority":
         target = hostport
     elif form == "origin":
@@ -103,7 +124,7 @@ def build_request(env, path, rq):
         target = "*"
     else:
         target = "http://%s%s" % (hostport, path)
-    lines = ["%s %s %s" % (m, target, rq["version"]), "Host: " + hostport] + list(rq["headers"])
+    lines = ["%s %s %s" % (m, target, rq["version"]), "Host: " + hostport] + list(rq["headers"]) + extra_headers
     body = b""
     if rq["body"] == "length":
         body = b"b" * rq["body_len"]
